@@ -71,6 +71,19 @@ def Keyed (key : β → κ) (s : KV κ β) : Prop := ∀ e ∈ s, e.1 = key e.2
 
 end kv
 
+/-- the two writes a keeper performs on a section whose key is computed from the stored value -/
+inductive StoreOp (κ β : Type)
+  | set (v : β)
+  | del (k : κ)
+
+def storeStep {κ β : Type} [DecidableEq κ] (lt : κ → κ → Bool) (key : β → κ) (s : KV κ β) : StoreOp κ β → KV κ β
+  | .set v => kvSet lt (key v) v s
+  | .del k => kvDel k s
+
+/-- any history of writes, from the empty section -/
+def storeRun {κ β : Type} [DecidableEq κ] (lt : κ → κ → Bool) (key : β → κ) (ops : List (StoreOp κ β)) : KV κ β :=
+  ops.foldl (storeStep lt key) []
+
 /-- the largest id (0 for none) -/
 def maxId (ids : List Nat) : Nat := ids.foldl Nat.max 0
 
